@@ -257,3 +257,63 @@ def resolve_local(fn, e, depth=3):
         e = defs[0].value
         depth -= 1
     return e
+
+
+def inline_locals(fn, e, depth=3):
+    """A copy of expression e in which every local Name with exactly one plain assignment in fn is replaced by the assigned
+    expression (transitively, depth-limited): lets slice arithmetic see through `n = len(xs); ys = zs[n:]`."""
+    import copy
+
+    class Sub(ast.NodeTransformer):
+        def __init__(self, d):
+            self.d = d
+
+        def visit_Name(self, n):
+            if self.d <= 0 or not isinstance(n.ctx, ast.Load):
+                return n
+            r = resolve_local(fn, n, depth=1)
+            if r is n:
+                return n
+            return Sub(self.d - 1).visit(copy.deepcopy(r))
+    return Sub(depth).visit(copy.deepcopy(e))
+
+
+def inline_self_call(model, cls_q, e):
+    """If e is `self.h(args)` / `cls.h(args)` and h (resolved in cls_q's MRO) consists of a single `return <expr>` (after an
+    optional docstring), a copy of that expression with h's parameters replaced by the arguments; otherwise e itself."""
+    import copy
+    if not (isinstance(e, ast.Call) and isinstance(e.func, ast.Attribute) and isinstance(e.func.value, ast.Name)
+            and e.func.value.id in ("self", "cls") and not e.keywords):
+        return e
+    h = model.method(cls_q, e.func.attr)
+    if h is None:
+        return e
+    body = [s_ for s_ in h.node.body if not (isinstance(s_, ast.Expr) and isinstance(s_.value, ast.Constant))]
+    if len(body) != 1 or not isinstance(body[0], ast.Return) or body[0].value is None:
+        return e
+    ps = [p for p in func_params(h.node) if p not in ("self", "cls")]
+    if len(ps) != len(e.args):
+        return e
+    env = dict(zip(ps, e.args))
+
+    class Sub(ast.NodeTransformer):
+        def visit_Name(self, n):
+            return copy.deepcopy(env[n.id]) if n.id in env else n
+    return Sub().visit(copy.deepcopy(body[0].value))
+
+
+def class_helpers(model, cls_q, f, depth=3):
+    """f plus the same-class methods it reaches through `self.<name>(...)` calls (transitively, depth-limited)."""
+    seen, out, todo = {f.qual}, [f], [(f, 0)]
+    while todo:
+        g, d = todo.pop()
+        if d >= depth:
+            continue
+        for c in walk_no_nested(g.node):
+            if isinstance(c, ast.Call) and isinstance(c.func, ast.Attribute) and isinstance(c.func.value, ast.Name) and c.func.value.id == "self":
+                h = model.method(cls_q, c.func.attr)
+                if h is not None and h.qual not in seen and h.cls == g.cls:
+                    seen.add(h.qual)
+                    out.append(h)
+                    todo.append((h, d + 1))
+    return out
